@@ -6,7 +6,6 @@ package v2
 // C12: what a decoded message may contain, whatever bytes were received.
 
 //@ -- a CID is "the sum of" some bytes when a CID prefix hashed exactly these bytes to it
-//@ fn isSumOf(c ref, data []byte) bool
 //@ -- go-cid: a prefix and its bytes; hashing under a prefix is a function of prefix and data
 //@ fn prefixOf(c ref) ref
 //@ fn prefixBytes(p ref) []byte
